@@ -101,15 +101,17 @@ claim("C11", "other",
       "contract-based deductive verification of the weight construction (loop invariant over ghost prefix sums) + native evaluation of the weighted-estimator contracts", "DESIGN.md 5/C11")
 
 claim("C06", "other",
-      "Structural obligations read from the AST of _frequency_domain_window_rejection: the iteration is a for-loop over range(1, max_iterations+1) "
-      "(terminates, at most max_iterations iterations), every return inside it returns the iteration counter, the fall-through exit returns "
-      "max_iterations, and masks are written only under the `currently accepted` guard (a rejected window is never re-accepted). Bounded / "
-      "cross-check (labelled): accept/reject decisions and iteration count equal an independent re-implementation of Cox et al. (2020) for all "
-      "four distribution pairs, n in {0.5..2.5}, max_iterations in {1,2,3,50}, two kinds of search range, crafted exact-zero cases; "
-      "window-order and amplitude-scale invariance; the azimuthal maximum. The driver's callees (statistics accessors) are vectorised numpy "
-      "outside the PyVC subset, so no value-level obligation is claimed as proved.",
+      "Proof: _frequency_domain_window_rejection under contract for every number of windows, every pair of masks, every n and every "
+      "max_iterations >= 1, with the statistics accessors as uninterpreted functions of the mask they read and their distribution argument: "
+      "the masks after the call are the published accept/reject step applied `result` times (ghost mask sequences with one-step axioms, "
+      "extensional array equality), `result` is the first iteration at which the published stopping rule holds (zero guards first, then both "
+      "relative-difference tests) or max_iterations, no window is re-accepted, at most max_iterations iterations, only the two masks are "
+      "written. Structural obligations on the same function are kept. Bounded / cross-check (labelled): the whole entry point including peak "
+      "search set-up equals an independent re-implementation of Cox et al. (2020) for all four distribution pairs, n in {0.5..2.5}, "
+      "max_iterations in {1,2,3,50}, two kinds of search range, crafted exact-zero cases; window-order and amplitude-scale invariance; the "
+      "azimuthal maximum. That the accessors return the textbook statistics is C05's obligation, not repeated here.",
       TB + "Cases whose decision sits on a bound within rounding (or whose convergence quantities are zero only up to rounding) are set aside by the oracle.",
-      "structural contract obligations on the AST + bounded native comparison with an independent re-implementation of the published algorithm", "DESIGN.md 5/C06")
+      "contract on the real driver discharged by z3/cvc5 (accessors abstracted by their contracts) + structural obligations + bounded native comparison with an independent re-implementation", "DESIGN.md 5/C06")
 
 claim("C13", "other",
       "Proof: maximum_value_window_rejection, for three component subsets x normalised / absolute thresholds x (no object, a traditional "
